@@ -106,12 +106,14 @@ def info(tier):
     return {
         "level": LEVEL,
         "exhaustive": tier == "thorough",
-        "rule": "fault points = (problem in %d) x (callback kind x entry index k | solver entry after j evaluations | cache-construction "
-        "call j | retry solve | post-solve loop) x 5 exception classes; thorough enumerates every k <= K, quick {1,2,K/2,K-1,K}; "
+        "rule": "fault points = (problem in %d) x (callback kind x entry index k | k-th entry of a closure produced by the compilers, i.e. inside "
+        "the compiled callables below the wrappers | k-th entry of an analysis / LP-extraction function or Problem method | solver entry after j evaluations | cache-construction call j | retry solve | "
+        "increased_recursion_limit bodies under 3 prior limits) x 5 exception classes; thorough enumerates every k <= K, quick {1,2,K/2,K-1,K}; "
         "each fault point is one injected solve on a fresh problem followed by two unarmed re-solves compared with an "
         "undisturbed baseline; distinct = distinct fault points" % len(PROBLEMS),
         "required_cells": [f"problem:{p}" for p in PROBLEMS] + [f"fault:{k}" for k in CALLBACK_KINDS + BUILD_KINDS]
-        + [f"exc:{e}" for e in EXC] + ["fault:solver-entry", "fault:linprog-entry", "fault:retry", "fault:recursion-limit-body",
+        + [f"exc:{e}" for e in EXC] + ["fault:solver-entry", "fault:linprog-entry", "fault:retry", "fault:recursion-limit-body", "fault:inside-compiled-callable", "fault:inside-analysis-or-problem-method",
+                                       "recursion-limit-prior:as-is", "recursion-limit-prior:application-set", "recursion-limit-prior:nested",
                                        "outcome:failed-returned", "outcome:propagated", "state:checked", "resolve:checked"],
         "assumptions": ["sys.monitoring PY_START failpoints raise inside the entered callback frame (verified by the fired counter)",
                         "warnings.showwarning and sys.getrecursionlimit() are verdict-bearing as in the statement; warnings.filters and np.geterr() are also compared"],
@@ -227,6 +229,9 @@ def run(ctx, rec):
         return
     seams = Seams().install()
     warnings.simplefilter("ignore")
+    limit_at_entry = sys.getrecursionlimit()
+    # an application that set its own limit after importing optyx: restoring "the default" instead of this value is a violation
+    sys.setrecursionlimit(limit_at_entry + 321)
     try:
         i = 0
         for pname in PROBLEMS:
@@ -249,6 +254,32 @@ def run(ctx, rec):
                         inject(rec, pname, baseline, f"{kind}#{k}/{K}", f"fault:{kind}", exc_name,
                                arm=lambda kind=kind, k=k, mk=mk: fp.arm(kind, k, mk),
                                disarm=lambda: (fp.fired, fp.disarm())[0])
+            # (1b) faults raised below the wrappers, inside the compiled callables themselves
+            for kind in sorted(k_ for k_ in counts if k_.startswith(("analysis:", "problem:"))):
+                K = counts[kind]
+                for k in sorted({1, 2, K} & set(range(1, K + 1))) if ctx.tier == "quick" else ks_for(min(K, 12), "thorough"):
+                    for exc_name, mk in EXC.items():
+                        i += 1
+                        if not ctx.mine(i) or rec.out_of_time():
+                            continue
+                        inject(rec, pname, baseline, f"{kind}#{k}/{K}", "fault:inside-analysis-or-problem-method", exc_name,
+                               arm=lambda kind=kind, k=k, mk=mk: fp.arm(kind, k, mk),
+                               disarm=lambda: (fp.fired, fp.disarm())[0])
+                        rec.paths[f"method-fault-kind:{kind}"] += 1
+            for kind in sorted(k_ for k_ in counts if k_.startswith("inner:")):
+                K = counts[kind]
+                ks = ks_for(K, "quick") if ctx.tier == "quick" or K > 40 else ks_for(K, ctx.tier)
+                if ctx.tier == "thorough" and K > 40:
+                    ks = sorted(set(ks) | {1 + (K - 1) * q // 24 for q in range(25)})
+                for k in ks:
+                    for exc_name, mk in EXC.items():
+                        i += 1
+                        if not ctx.mine(i) or rec.out_of_time():
+                            continue
+                        inject(rec, pname, baseline, f"{kind}#{k}/{K}", "fault:inside-compiled-callable", exc_name,
+                               arm=lambda kind=kind, k=k, mk=mk: fp.arm(kind, k, mk),
+                               disarm=lambda: (fp.fired, fp.disarm())[0])
+                        rec.paths[f"inner-fault-kind:{kind}"] += 1
             # (2) the solver entry itself: raise before / after j evaluations of the objective
             is_lp = pname.startswith("linprog")
             for j in (0, 1, 3):
@@ -317,28 +348,49 @@ def run(ctx, rec):
         # (4) increased_recursion_limit bodies that raise
         import optyx
 
-        for exc_name, mk in EXC.items():
+        entry_limit = sys.getrecursionlimit()
+        for exc_name, mk in list(EXC.items()) + [("none", None)]:
             for limit in (1500, 5000, 50):
-                i += 1
-                if not ctx.mine(i):
-                    continue
-                rec.case({"reclimit": limit, "e": exc_name})
-                before = snapshot()
-                try:
-                    with optyx.increased_recursion_limit(limit):
-                        inside = sys.getrecursionlimit()
-                        raise mk()
-                except BaseException:  # noqa: BLE001
-                    pass
-                rec.cmp(1, "fault:recursion-limit-body")
-                rec.cmp(1, f"exc:{exc_name}")
-                d = state_diff(before)
-                if d:
-                    rec.violation("recursion-limit-not-restored-after-raising-body", {"limit": limit, "exception": exc_name, "diff": d})
-                    sys.setrecursionlimit(before["reclimit"])
-                elif inside != limit:
-                    rec.events["recursion-limit-not-applied-inside"] += 1
+                for prior in ("as-is", "application-set", "nested"):
+                    i += 1
+                    if not ctx.mine(i):
+                        continue
+                    rec.case({"reclimit": limit, "e": exc_name, "prior": prior})
+                    # the limit in force before the block: the process's own, one set by the application, or an enclosing block's
+                    if prior == "application-set":
+                        sys.setrecursionlimit(entry_limit + 777)
+                    outer = optyx.increased_recursion_limit(7321) if prior == "nested" else None
+                    if outer is not None:
+                        outer.__enter__()
+                    before = snapshot()
+                    inside = None
+                    try:
+                        with optyx.increased_recursion_limit(limit):
+                            inside = sys.getrecursionlimit()
+                            if mk is not None:
+                                raise mk()
+                            P, method, kw = build("lbfgsb-unconstrained")
+                            P.solve(method=method, **kw)
+                    except BaseException:  # noqa: BLE001
+                        pass
+                    rec.cmp(1, "fault:recursion-limit-body")
+                    if mk is not None:
+                        rec.cmp(1, f"exc:{exc_name}")
+                    rec.cmp(1, f"recursion-limit-prior:{prior}")
+                    d = state_diff(before)
+                    if d:
+                        rec.violation("recursion-limit-not-restored-after-%s-body" % ("raising" if mk is not None else "normal"),
+                                      {"limit": limit, "exception": exc_name, "diff": d, "prior": prior, "before": before["reclimit"], "after": sys.getrecursionlimit()})
+                    elif inside != limit:
+                        rec.events["recursion-limit-not-applied-inside"] += 1
+                    if outer is not None:
+                        try:
+                            outer.__exit__(None, None, None)
+                        except BaseException:  # noqa: BLE001
+                            pass
+                    sys.setrecursionlimit(entry_limit)
     finally:
+        sys.setrecursionlimit(limit_at_entry)
         seams.uninstall()
         fp.uninstall()
 
